@@ -96,6 +96,21 @@ def run(chk):
                 cmp("r0.volume", sp.volume, float(p.volume), rel=1e-12)
                 cmp("r0.surface_area", sp.surface_area, float(p.surface_area), rel=1e-12)
             chk.count("radius:0" if r == 0 else "radius:>0")
+            # the Steiner quantities are those of the shape whatever was asked of it before: after containment queries (points inside the core,
+            # in the rounded layer and outside), an export and a repr they read the same
+            if r > 0:
+                before = [float(sp.volume), float(sp.surface_area), float(sp.mean_curvature)]
+                c0 = V.mean(0)
+                probes = np.array([c0, c0 + (V[0] - c0) * (1 + 0.5 * r / (np.linalg.norm(V[0] - c0) + 1e-300)), c0 + (V[1] - c0) * 3 + 5 * r, V.max(0) + 10 * r + 1])
+                bad_q = None
+                for qn, qf in (("is_inside(batch)", lambda: sp.is_inside(probes)), ("is_inside(point)", lambda: sp.is_inside(probes[1])),
+                               ("repr", lambda: repr(sp)), ("to_hoomd", sp.to_hoomd)):      # (each judged on its own: a later query may repair an earlier one)
+                    C.excname(qf)
+                    after = [float(sp.volume), float(sp.surface_area), float(sp.mean_curvature)]
+                    if not np.allclose(after, before, rtol=1e-9, atol=0):      # (to_hoomd moves the core and back: last-digit differences)
+                        bad_q = qn; break
+                if bad_q:
+                    chk.violation("spheropolyhedron.measures-changed-by-a-query", dict(desc, radius=r, query=bad_q, before=before, after=after)); break
             # the core is reachable through the public .polyhedron accessor: after resizing it the Steiner quantities must be those
             # of the NEW core (V, S, M scale with s^3, s^2, s for the similarity the volume setter applies)
             if r is radii[1]:
